@@ -86,7 +86,7 @@ def group_of(spec):
 
 def const_fold_open():
     """step-over switch: true while the unbounded-constant-folding finding (either facet) is listed as open"""
-    return any(common.classify(ID, (ID, "const-fold", "nop2", k))[0] == "known" for k in ("watchdog", "memory"))
+    return any(common.classify(ID, (ID, "const-fold", k))[0] == "known" for k in ("watchdog", "memory"))
 
 
 def sizes_for(family, tier):
@@ -149,16 +149,16 @@ def judge_terminal(r, spec, p2, wall_s, group=None):
     g, fl = group or group_of(spec), flagstr(p2)
     st = r["status"]
     if st == "watchdog":
-        return ((ID, g, fl, "watchdog"),
+        return ((ID, g, "watchdog"),
                 "%s %s: no result within the %.0f s watchdog in %d attempt(s)" % (spec, fl, wall_s, r.get("attempts", 1)))
     if st in ("memory", "killed"):
-        return ((ID, g, fl, "memory"),
-                "%s %s: child %s under the address-space limit (+%d GiB)" % (spec, fl, st, runner.MEM_HEADROOM >> 30))
+        return ((ID, g, "memory"),
+                "%s %s: child died without a result (%s) under the address-space / file-size limits" % (spec, fl, r.get("how") or st))
     if st == "done" and mem_growth_kb(r) > MEM_LIMIT_KB:
-        return ((ID, g, fl, "memory"),
+        return ((ID, g, "memory"),
                 "%s %s: resident memory grew by %d MiB" % (spec, fl, mem_growth_kb(r) >> 10))
     if st == "done" and r.get("exc") and "MemoryError" in str(r.get("exc")):
-        return ((ID, g, fl, "memory"), "%s %s: pipeline ended with %s" % (spec, fl, r.get("exc")))
+        return ((ID, g, "memory"), "%s %s: pipeline ended with %s" % (spec, fl, r.get("exc")))
     return None
 
 
@@ -219,7 +219,7 @@ def sweep(col, family, p2, sizes, count_calls=False, counters=GROWTH_COUNTERS, f
             else:
                 what = "%s %s: steps(n=%d) > (%d/%d)^%.1f * steps(n=%d) = %d (aborted at the bound; %s)" % (
                     family, flagstr(p2), n, n, prev[0], DEGREE, prev[0], budget, {k: c.get(k) for k in runner.COUNTERS})
-            col.discrepancy((ID, GROUPS.get(family, family), flagstr(p2), "growth"), what, case_pair)
+            col.discrepancy((ID, GROUPS.get(family, family), "growth"), what, case_pair)
             col.discards["sweep-stopped-after-overrun"] += len(sizes) - idx - 1
             break
         if r["status"] != "done":
@@ -234,7 +234,7 @@ def sweep(col, family, p2, sizes, count_calls=False, counters=GROWTH_COUNTERS, f
             col.label("nontrivial")
         if prev is not None:
             for k, base, val, lim in growth_discrepancies(prev[0], prev[1], n, c, counters):
-                col.discrepancy((ID, GROUPS.get(family, family), flagstr(p2), "growth"),
+                col.discrepancy((ID, GROUPS.get(family, family), "growth"),
                                 "%s %s: %s(n=%d)=%d > (%d/%d)^%.1f * %s(n=%d)=%d -> bound %d" % (
                                     family, flagstr(p2), k, n, val, n, prev[0], DEGREE, k, prev[0], base, lim), case_pair)
         prev = (n, c, float(r.get("wall_s") or r.get("elapsed_s") or 0.0))
@@ -287,7 +287,7 @@ def check_composition(col, spec, p2):
         out.append(d)
         return out
     if r["status"] == "step-budget":
-        out.append(((ID, group_of(spec), flagstr(p2), "compose-growth"),
+        out.append(((ID, group_of(spec), "compose-growth"),
                     "%s %s: more than 2^%.1f x max(parts)=%d steps (parts %s)" % (spec, flagstr(p2), DEGREE, budget, parts)))
         return out
     if r["status"] == "done" and not r.get("exc"):
@@ -355,16 +355,17 @@ def check_case(case, col=None):
         spec = case.get("spec") or []
         group = case.get("group") or group_of(spec)
         wall_s = float(case.get("budget_s") or WATCHDOG_FLOOR_S)
-        known = common.classify(ID, (ID, group, flagstr(p2), "watchdog"))[0] == "known" and not os.environ.get("VERIF_CONFIRM")
-        # a hit of an already listed finding needs no second attempt (the retry only guards against machine noise)
+        known = common.classify(ID, (ID, group, "watchdog"))[0] == "known" and not os.environ.get("VERIF_CONFIRM")
+        # a hit of an already listed finding needs no second attempt (the retry only guards against machine noise);
+        # neither does the fresh-process confirmation of a violation, which already is a further attempt
         r = run_once(case_files(case), p2, wall_s, int(case.get("step_budget") or runner.DEFAULT_STEP_BUDGET),
-                     retry=not known, mem_headroom=(int(case["mem_headroom_mb"]) << 20) if case.get("mem_headroom_mb") else None)
+                     retry=not known and not os.environ.get("VERIF_CONFIRM"), mem_headroom=(int(case["mem_headroom_mb"]) << 20) if case.get("mem_headroom_mb") else None)
         record_run(col, r, spec, p2)
         d = judge_terminal(r, spec or group, p2, wall_s, group=group)
         if d:
             out.append(d)
         elif r["status"] == "step-budget":
-            out.append(((ID, group, flagstr(p2), "growth"),
+            out.append(((ID, group, "growth"),
                         "%s %s: step budget %s exceeded" % (spec or group, flagstr(p2), case.get("step_budget"))))
     elif kind == "pair":
         sub = Collector()
@@ -444,16 +445,16 @@ def main(tier, seed, t0):
     args += [("compose", common.shard_seed(seed, i), ncomp // nsh + (1 if i < ncomp % nsh else 0)) for i in range(nsh)]
     col.merge(common.run_shards(_shard, args))
 
-    # self-checks against vacuity
+    # self-checks against vacuity (only meaningful when nothing new was flagged)
     done = col.labels.get("status:done", 0)
-    if col.evaluations == 0 or done < 0.8 * col.evaluations:
-        if not col.buckets:
+    if not any(common.classify(ID, sig)[0] == "new" for sig in col.buckets):
+        if col.evaluations == 0 or done < 0.8 * col.evaluations:
             col.error("only %d of %d runs finished normally and nothing was flagged: the check would be vacuous" % (done, col.evaluations))
-    if col.labels.get("taint:flows>0", 0) < 0.5 * max(1, done):
-        col.error("the taint phase reported flows in only %d of %d finished runs: sources/sinks are not effective" % (
-            col.labels.get("taint:flows>0", 0), done))
-    if col.labels.get("pipeline-exception", 0) > 0.1 * max(1, done):
-        col.error("%d of %d finished runs ended with an exception inside lian" % (col.labels.get("pipeline-exception", 0), done))
+        if col.labels.get("taint:flows>0", 0) < 0.5 * max(1, done):
+            col.error("the taint phase reported flows in only %d of %d finished runs: sources/sinks are not effective" % (
+                col.labels.get("taint:flows>0", 0), done))
+        if col.labels.get("pipeline-exception", 0) > 0.1 * max(1, done):
+            col.error("%d of %d finished runs ended with an exception inside lian" % (col.labels.get("pipeline-exception", 0), done))
     return common.finish(ID, tier, seed, col, t0, RULE, ASSUMPTIONS,
                          extra_coverage={"families": {f: (fam.FAMILIES[f].__doc__ or "").strip() for f in sorted(fam.FAMILIES)},
                                          "sizes": {f: sizes_for(f, tier)[0] for f in sorted(fam.FAMILIES)},
